@@ -123,6 +123,10 @@ func (c05) outage(sc core.Scenario, r *core.R) {
 	env.Svc.Hold(hrT)
 	cu := Go(hu, func() (string, error) { return cl.Echo(ctx, hu, "") })
 	cr := Go(hrT, func() (string, error) { return cl.EchoR(ctx, hrT, "") })
+	hn := Tok("r")
+	env.Svc.Hold(hn)
+	cn := Go(hn, func() (string, error) { return cl.NoCtxR(hn) }) // retry-tagged, no context parameter
+	env.Svc.WaitEntered(hn, core.Grace)
 	if !env.Svc.WaitEntered(hu, core.Grace) || !env.Svc.WaitEntered(hrT, core.Grace) {
 		r.Inconclusive("held calls did not reach their handlers")
 		return
@@ -189,7 +193,7 @@ func (c05) outage(sc core.Scenario, r *core.R) {
 		return
 	}
 	// (2) retry-tagged calls ride out the outage
-	for _, c := range []*Outcome{cr, rIn} {
+	for _, c := range []*Outcome{cr, rIn, cn} {
 		if c == nil {
 			continue
 		}
